@@ -257,6 +257,10 @@ class HistGen:
         elif k < 8 and self.o["purge_beyond"] and m.last is not None:
             upto = (m.last[0] + r.below(2), m.last[1] + 1 + r.below(3))
             self.count("purge-beyond")
+        elif self.o["purge_beyond"] and m.last is None:
+            # purge on a log without any entry (fresh, or emptied by truncate)
+            upto = (r.below(3), r.below(12))
+            self.count("purge-empty-log")
         elif m.purged is not None:
             upto = (r.below(m.purged[0] + 2), r.below(m.purged[1] + 1))
             self.count("purge-noop")
